@@ -124,6 +124,18 @@ fn find_start_marker(
             Some(m) => m,
         };
 
+        // Overlapping matches are reported in the order in which they end.  A longer
+        // delimiter that starts at (or before) the current candidate can thus still
+        // follow matches that start later; only once a match ends further away than
+        // the longest delimiter reaches, the candidate is final.
+        if let Some(ref x) = longest_match {
+            if m.end() > x.0 + ac.max_pattern_len() {
+                break;
+            } else if m.start() > x.0 {
+                continue;
+            }
+        }
+
         let marker = syntax_config.pattern_to_marker(m.pattern());
         let ws = if matches!(marker, StartMarker::LineStatement) {
             let prefix = &a.as_bytes()[..offset + m.start()];
@@ -142,12 +154,7 @@ fn find_start_marker(
         } else {
             Whitespace::from_byte(bytes.get(m.start() + m.len()).copied())
         };
-        let new_match = (m.start(), marker, m.len() + ws.len(), ws);
-
-        if longest_match.as_ref().is_some_and(|x| new_match.0 > x.0) {
-            break;
-        }
-        longest_match = Some(new_match);
+        longest_match = Some((m.start(), marker, m.len() + ws.len(), ws));
     }
 
     longest_match
@@ -204,12 +211,12 @@ fn is_nl(c: char) -> bool {
 fn skip_nl(mut rest: &str) -> (bool, usize) {
     let mut skip = 0;
     let mut was_nl = false;
-    if let Some(new_rest) = rest.strip_prefix('\n') {
+    if let Some(new_rest) = rest.strip_prefix('\r') {
         rest = new_rest;
         skip += 1;
         was_nl = true;
     }
-    if let Some(new_rest) = rest.strip_prefix('\r') {
+    if let Some(new_rest) = rest.strip_prefix('\n') {
         rest = new_rest;
         skip += 1;
         was_nl = true;
@@ -219,7 +226,7 @@ fn skip_nl(mut rest: &str) -> (bool, usize) {
 
 fn lstrip_block(s: &str) -> &str {
     let trimmed = s.trim_end_matches(|x: char| x.is_whitespace() && !is_nl(x));
-    if trimmed.is_empty() || trimmed.as_bytes().get(trimmed.len() - 1) == Some(&b'\n') {
+    if trimmed.is_empty() || matches!(trimmed.as_bytes().last(), Some(b'\n' | b'\r')) {
         trimmed
     } else {
         s
@@ -227,7 +234,14 @@ fn lstrip_block(s: &str) -> &str {
 }
 
 fn should_lstrip_block(flag: bool, marker: StartMarker, prefix: &str) -> bool {
-    if flag && !matches!(marker, StartMarker::Variable) {
+    let applies = flag && !matches!(marker, StartMarker::Variable);
+    #[cfg(feature = "custom_syntax")]
+    let applies = applies
+        || matches!(
+            marker,
+            StartMarker::LineStatement | StartMarker::LineComment
+        );
+    if applies {
         // Only strip if we're at the start of a line
         for c in prefix.chars().rev() {
             if is_nl(c) {
@@ -238,15 +252,6 @@ fn should_lstrip_block(flag: bool, marker: StartMarker, prefix: &str) -> bool {
         }
         // If we get here, we're at the start of the file
         return true;
-    }
-    #[cfg(feature = "custom_syntax")]
-    {
-        if matches!(
-            marker,
-            StartMarker::LineStatement | StartMarker::LineComment
-        ) {
-            return true;
-        }
     }
     false
 }
@@ -742,6 +747,11 @@ impl<'s> Tokenizer<'s> {
             {
                 let ws = Whitespace::from_byte(self.rest_bytes().get(ptr).copied());
                 let end = ptr - self.block_start().len();
+                let lstrip = should_lstrip_block(
+                    self.ws_config.lstrip_blocks,
+                    StartMarker::Block,
+                    &self.source[..self.current_offset + end],
+                );
                 let mut result = &self.rest()[..end];
                 self.advance(end);
                 let span = self.span(old_loc);
@@ -761,7 +771,7 @@ impl<'s> Tokenizer<'s> {
                     _ => {}
                 }
                 result = match ws {
-                    Whitespace::Default if self.ws_config.lstrip_blocks => lstrip_block(result),
+                    Whitespace::Default if lstrip => lstrip_block(result),
                     Whitespace::Remove => result.trim_end(),
                     _ => result,
                 };
